@@ -506,6 +506,14 @@ contract('StochasticGame.__init__', constructor=True, fields_override=C09_FIELDS
                   "self.num_states == len(players)", "self.prune_states == prune_states"],
          list_eq_structural=True,
          props=['C09', 'C12'])
+# count_transitions runs BEFORE any validation (run_games calls it right after the constructor): the entries of the
+# transition list are arbitrary Python values; it must not raise on any of them (no `raises` clause: every exception is an
+# unproved obligation) and must not touch the description
+contract('StochasticGame.count_transitions', fields_override=C09_FIELDS, heap=SG_HEAP, lheap=[PYVAL],
+         params={'self': SG}, result=INT, locals={'transitions': INT, 'state_transitions': PYVAL},
+         requires=[], modifies={}, ensures=["result >= 0"],
+         loops={0: dict(inv=["transitions >= 0"])},
+         props=['C09', 'C12', 'C10'])
 WF_ALL = WF_TOP + [ALL_STATES_OK]
 contract('StochasticGame.solve', fields_override=C09_FIELDS, heap=SG_HEAP + NODE_HEAP, lheap=[PYVAL],
          params={'self': SG}, locals={'state_list': SLT},
@@ -616,6 +624,15 @@ def residW(bound):
 
 
 W_FRAME = [f"forall(r, implies(not exists(p, 0, len({SL_}), {SL_}[p] == r), {h}[r] == old({h}[r])))" for h in ('ER', 'EMR', 'ERM')]
+
+
+# the stopping rule covers ALL THREE vectors (C14: the two diagnostic vectors are iterated to the same tolerance as the rewards):
+# the last sweep changed none of them by more than the bound at any state
+def LAST_SWEEP(bound):
+    return (f"implies(i >= 1, forall(q, 0, len({SL_}), abs(ER[{nodeq('q')}] - x_old[{nodeq('q')}]) <= {bound}"
+            f" and abs(EMR[{nodeq('q')}] - emr_old[{nodeq('q')}]) <= {bound} and abs(ERM[{nodeq('q')}] - erm_old[{nodeq('q')}]) <= {bound}))")
+
+
 contract('Solver.value_iteration_total_rewards', heap=SOLVER_HEAP,
          params={'self': REF('Solver')}, result=INT, opaque=('BW', 'MaxS', 'MinS', 'SumS', 'SumP', 'MinW0', 'LastMax', 'LastMin'),
          locals={'diff': REAL, 'i': INT, 'max_diff': REAL, 'state': NODE, 'expected_rewards_next': REAL, 'expected_rewards_min_reach': REAL,
@@ -624,18 +641,22 @@ contract('Solver.value_iteration_total_rewards', heap=SOLVER_HEAP,
          ensures=[residW("self.threshold"), ENN, "result >= 1"],
          modifies={f: [f"exists(p, 0, len({SL_}), {SL_}[p] == _o)"] for f in ('expected_rewards', 'expected_rewards_min_reach', 'expected_reach_min_rewards')},
          loops={
-             0: dict(inv=[ENN, "diff >= 0", "i >= 0", "implies(i == 0, diff == 1)", f"implies(i >= 1, {residW('diff')})"] + W_FRAME,
-                     ghost_decl=[('x_old', AR), ('snap', AAR)], ghost_mod=[('x_old', AR), ('snap', AAR)], ghost_pre=[('x_old', AR, 'ER')],
+             0: dict(inv=[ENN, "diff >= 0", "i >= 0", "implies(i == 0, diff == 1)", f"implies(i >= 1, {residW('diff')})"] + W_FRAME + [LAST_SWEEP('diff')],
+                     ghost_decl=[('x_old', AR), ('snap', AAR), ('emr_old', AR), ('erm_old', AR)], ghost_mod=[('x_old', AR), ('snap', AAR), ('emr_old', AR), ('erm_old', AR)],
+                     ghost_pre=[('x_old', AR, 'ER'), ('emr_old', AR, 'EMR'), ('erm_old', AR, 'ERM')],
                      heap_mod=['expected_rewards', 'expected_rewards_min_reach', 'expected_reach_min_rewards'],
                      use={4: [f"forall(q, 0, len({SL_}), L_BW_lip(cls({nodeq('q')}), {nodeq('q')}.reward, lcontent({nodeq('q')}.next_states), {SL_}, snap[q], ER, max_diff))"]}),
              1: dict(inv=[f"forall(r, implies(not {wbw('_i1', 'r')}, ER[r] == x_old[r]))",
                           f"forall(q, 0, _i1, abs(ER[{nodeq('q')}] - x_old[{nodeq('q')}]) <= max_diff)",
                           f"forall(q, 0, _i1, ER[{nodeq('q')}] == {BWq('q', 'snap[q]')})",
                           f"forall(q, 0, _i1, forall(r, snap[q][r] == (ER[r] if {wbw('q', 'r')} else x_old[r])))",
-                          ENN, "max_diff >= 0"] + W_FRAME,
+                          ENN, "max_diff >= 0"] + W_FRAME + [
+                          f"forall(r, implies(not {wbw('_i1', 'r')}, EMR[r] == emr_old[r] and ERM[r] == erm_old[r]))",
+                          f"forall(q, 0, _i1, abs(EMR[{nodeq('q')}] - emr_old[{nodeq('q')}]) <= max_diff and abs(ERM[{nodeq('q')}] - erm_old[{nodeq('q')}]) <= max_diff)"],
                      ghost_mod=[('snap', AAR)], ghost_pre=[('snap', AAR, 'store(snap, _i1, ER)')],
                      hint_pre=[f"forall(p, 0, len({SL_}), forall(p2, 0, len({SL_}), implies(p != p2, {SL_}[p] != {SL_}[p2])))"],
                      use={4: [f"L_BW_nonneg(cls({nodeq('_i1 - 1')}), {nodeq('_i1 - 1')}.reward, lcontent({nodeq('_i1 - 1')}.next_states), {SL_}, snap[_i1 - 1])"]})},
+         before_return=dict(hints=[LAST_SWEEP('self.threshold')]),
          termination_unproved=True,
          props=['C02', 'C14', 'C05', 'C06', 'C13'])
 
